@@ -148,4 +148,11 @@ var props = map[string]*propCfg{
 		Quick:       []legCfg{mc("selectors", "MC_C09", "C09_quick.cfg", 10*time.Minute)},
 		Thorough:    []legCfg{mc("selectors", "MC_C09", "C09_thorough.cfg", 30*time.Minute)},
 	},
+	"C07": {
+		ID: "C07", Level: "model_checking", Exhaustive: true,
+		Rule:        "TLC enumerates documents (t: <= MaxRows rows with a numeric, a grouping column and a nested array of <= MaxNest objects; u: 0-2 rows) x query families: 7 inner queries (star, filter, GROUP BY with aggregates, ORDER BY + LIMIT, DISTINCT, computed column, empty) x 7 outer queries over the CTE; the same inners as aliased derived tables x 6 alias-qualified outers; CTE chains c -> d -> outer; a CTE referenced twice (source and <- IN subquery); a CTE read through a path selector c[0].n; 10 subquery shapes (select-list subquery plain / filtered / aggregate / rooted at <- / correlated through <-, IN subquery, EXISTS with and without an outer-column reference, NOT EXISTS, EXISTS AND ...). The invariant ComposedIsStaged compares RunQ with explicit materialise-then-run on the specification. Each case is replayed three ways: composed (= exported result), staged with the real engine (every CTE / derived table executed alone, result deep-copied into a plain document, outer query run over it), and select-list subqueries standalone on each kept row. Non-trivial: non-empty result; distinct = distinct (document, query).",
+		Assumptions: baseAssumptions,
+		Quick:       []legCfg{mc("compose", "MC_C07", "C07_quick.cfg", 10*time.Minute)},
+		Thorough:    []legCfg{mc("compose", "MC_C07", "C07_thorough.cfg", 40*time.Minute)},
+	},
 }
